@@ -25,7 +25,7 @@ import traceback
 
 from harness import e3
 
-KINDS = ["startup", "dispatch", "job", "rpc", "hash-job", "report", "cleanup-revert", "cleanup-delete",
+KINDS = ["startup-schema", "startup", "dispatch", "job", "rpc", "hash-job", "report", "cleanup-revert", "cleanup-delete",
          "cleanup-removal", "build-completed", "watch-phase", "stage"]
 
 STARTUP_SITES = {"Trellis.initialize", "Scheduler.initialize", "serve", "reset_interrupted_steps",
@@ -41,6 +41,8 @@ def site_kind(info: dict, in_startup: bool = False) -> str:
         return "stage"
     if info["kind"] == "removal":
         return "cleanup-removal"
+    if info["kind"] == "schema-stmt":
+        return "startup-schema"
     site = info.get("site", "")
     if in_startup or site in STARTUP_SITES:
         return "startup"
@@ -106,6 +108,76 @@ def removal_crash(k: int):
 
 def build_forked_removal(tmp: str, program: dict, k: int, **kw) -> e3.ForkOutcome:
     with removal_crash(k):
+        return e3.build_forked(tmp, program, crash=None, **kw)
+
+
+# -- statements of DBSession.apply_schema (autocommit mode: each one is committed on its own) ----------
+
+
+class _StmtProxy:
+    """The connection `DBSession._autocommit_con` yields, with every statement counted; a script of
+    `executescript` is split into its statements (sqlite3.complete_statement), which is what
+    autocommit mode makes of it: each one committed on its own."""
+
+    def __init__(self, con, hook):
+        self._con = con
+        self._hook = hook
+
+    def __getattr__(self, name):
+        return getattr(self._con, name)
+
+    def execute(self, sql, *args):
+        self._hook(sql)
+        return self._con.execute(sql, *args)
+
+    def executescript(self, script):
+        import sqlite3
+        buf = ""
+        for line in script.splitlines(keepends=True):
+            buf += line
+            if sqlite3.complete_statement(buf):
+                if buf.strip().rstrip(";").strip():
+                    self._hook(buf)
+                    self._con.executescript(buf)
+                buf = ""
+        if buf.strip():
+            self._hook(buf)
+            self._con.executescript(buf)
+
+
+@contextlib.contextmanager
+def _autocommit_hook(hook):
+    from stepup.core.sqlite3 import DBSession
+    orig = DBSession._autocommit_con
+
+    @contextlib.asynccontextmanager
+    async def patched(self):
+        async with orig(self) as con:
+            yield _StmtProxy(con, hook)
+
+    DBSession._autocommit_con = patched
+    try:
+        yield
+    finally:
+        DBSession._autocommit_con = orig
+
+
+def count_schema_stmts(counter: list):
+    """Inside: the autocommitted statements of an in-process build are appended to ``counter``."""
+    return _autocommit_hook(lambda sql: counter.append(" ".join(sql.split())[:60]))
+
+
+def build_forked_schema(tmp: str, program: dict, k: int, **kw) -> e3.ForkOutcome:
+    """A forked build that dies right before its k-th autocommitted statement."""
+    state = {"n": 0}
+
+    def hook(sql):
+        state["n"] += 1
+        if state["n"] == k and e3._CTX is not None:
+            e3._CTX.die({"kind": "schema-stmt", "k": k, "when": "before", "site": "DBSession.apply_schema",
+                         "wrote": True, "stmt": " ".join(sql.split())[:60]})
+
+    with _autocommit_hook(hook):
         return e3.build_forked(tmp, program, crash=None, **kw)
 
 
